@@ -114,6 +114,9 @@ def _is_subclass(value: type, class_type: Type) -> bool:
     """
     if class_type is Any:
         return True
+    if class_type is None:
+        # (`type[None]`: builtin generics keep a literal `None`.)
+        class_type = type(None)
     if sys.version_info >= (3, 10) and isinstance(class_type, types.UnionType):
         return any(_is_subclass(value, type_) for type_ in class_type.__args__)
     class_origin = getattr(class_type, "__origin__", None)
